@@ -1,5 +1,6 @@
 use vkit::engine::{drive_main, Args};
 
+pub mod c04;
 pub mod c08;
 pub mod c09;
 pub mod c10;
@@ -16,6 +17,7 @@ pub const STACK_SIZE: usize = 8 * 1024 * 1024;
 
 pub fn dispatch(id: &str, args: &Args) -> i32 {
     match id {
+        "C04" => drive_main(&c04::C04, args),
         "C08" => drive_main(&c08::C08, args),
         "C09" => drive_main(&c09::C09, args),
         "C10" => drive_main(&c10::C10, args),
